@@ -335,15 +335,20 @@ class ArMember(object):
         return buf
 
     def readlines(self, sizehint=0):
-        # type: (int) -> List[bytes]
-        # pylint: disable=unused-argument
+        # type: (Optional[int]) -> List[bytes]
         buf = None
         lines = []
+        total = 0
         while True:
             buf = self.readline()
             if not buf:
                 break
             lines.append(buf)
+            total += len(buf)
+            # like io.IOBase.readlines: a positive hint stops the reading once
+            # the lines read so far hold at least that many bytes
+            if sizehint is not None and 0 < sizehint <= total:
+                break
 
         return lines
 
